@@ -519,4 +519,59 @@ example : (Strings.NumArgWf (.flt false [1,2,3,4,5,6,7,8] 5) ∧ Strings.xp1Trig
   refine ⟨⟨?_, by decide, by decide⟩, by decide, by decide, by decide, by decide⟩
   exact ⟨⟨by decide, Or.inr ⟨1, [2,3,4,5,6,7,8], rfl, by decide⟩⟩, by decide⟩
 
+
+/-! ## substring: position arguments that are nodes, untyped values or (XPath 1.0) strings -/
+
+/-- PARTIAL (known finding F09j).  Full statement (XPath 1.0): whatever the kind of the position
+arguments — number, node/untyped value, string — `substring` is the spec function on their `number()`
+values.  Proved when no position argument that is read is a string; a string raises FORG0006 (pinned
+by the repository's test-suite), see the counter-example. -/
+theorem fn_substring_xpath1_partial (item : Option Str) (a b : Strings.PosArg)
+    (ha : a.value.wf) (hb : b.value.wf) (hsa : a.isString = false) (hsb : b.isString = false) :
+    Strings.fnSubstring2 item a = .ok (FOStrings.substring2 (FOStrings.orEmpty item) a.value) ∧
+    Strings.fnSubstring3 item a b = .ok (FOStrings.substring3 (FOStrings.orEmpty item) a.value b.value) := by
+  have hd := arg_default_eq_spec item
+  constructor
+  · cases a with
+    | string n => simp [Strings.PosArg.isString] at hsa
+    | num n => simp only [Strings.fnSubstring2, Strings.posValue, Strings.PosArg.value, hd, substring2_eq_spec _ n ha]
+    | untyped n => simp only [Strings.fnSubstring2, Strings.posValue, Strings.PosArg.value, hd, substring2_eq_spec _ n ha]
+  · have key : ∀ n m : Num, n.wf → m.wf →
+        (match n with
+          | .nan => (.ok [] : Except Strings.SubErr Str) | .pinf => .ok [] | .ninf => .ok []
+          | .fin _ _ => .ok (Strings.substring3 (Strings.argDefault item) n m))
+        = .ok (FOStrings.substring3 (FOStrings.orEmpty item) n m) := by
+      intro n m hn hm
+      rw [← substring_eq_spec _ n m hn hm, hd]
+      cases n <;> simp [Strings.substring3]
+    cases a with
+    | string n => simp [Strings.PosArg.isString] at hsa
+    | num n =>
+      cases b with
+      | string m => simp [Strings.PosArg.isString] at hsb
+      | num m =>
+        simp only [Strings.fnSubstring3, Strings.posValue, Strings.PosArg.value]
+        have := key n m ha hb
+        cases n <;> simpa using this
+      | untyped m =>
+        simp only [Strings.fnSubstring3, Strings.posValue, Strings.PosArg.value]
+        have := key n m ha hb
+        cases n <;> simpa using this
+    | untyped n =>
+      cases b with
+      | string m => simp [Strings.PosArg.isString] at hsb
+      | num m =>
+        simp only [Strings.fnSubstring3, Strings.posValue, Strings.PosArg.value]
+        have := key n m ha hb
+        cases n <;> simpa using this
+      | untyped m =>
+        simp only [Strings.fnSubstring3, Strings.posValue, Strings.PosArg.value]
+        have := key n m ha hb
+        cases n <;> simpa using this
+
+/-- F09j: `substring('12345', '2')` with the XPath 1.0 parser is an error, XPath 1.0 says `'2345'` -/
+theorem fn_substring_xpath1_fails :
+    Strings.fnSubstring2 (some [49, 50, 51, 52, 53]) (.string (.fin 2 1)) = .error .FORG0006 ∧
+    FOStrings.substring2 [49, 50, 51, 52, 53] (.fin 2 1) = [50, 51, 52, 53] := ⟨rfl, by decide⟩
+
 end EPV.C09
